@@ -144,6 +144,9 @@ def corpus():
             http_req(1, host="w.example.com", headers=[("Connection", "Upgrade"), ("Upgrade", "websocket")]),
             http_req(1, host="w.example.com", headers=[("Connection", "Upgrade"), ("Upgrade", "WebSocket")]),
             http_req(0, host="w.example.com", headers=[("Connection", "upgrade"), ("Upgrade", "WEBSOCKET")]),
+            # Connection split over two field lines, the upgrade token in the first (seeded change C08-1)
+            http_req(0, host="w.example.com", headers=[("Connection", "Upgrade"), ("Connection", "keep-alive"), ("Upgrade", "websocket")]),
+            http_req(1, host="w.example.com", headers=[("Connection", "Upgrade"), ("connection", "x-a"), ("X-A", "1"), ("Upgrade", "websocket")]),
             http_req(0, host="nobody.example.com")]})
     truth_views(cs[-1]["nodes"])
     # failure matrix
@@ -172,6 +175,22 @@ def corpus():
             http_req(0, method="PUT", target="/", body={"len": 65536, "seed": 5}, chunked_req=True, resp=mk_resp(502, [("X-From", "upstream")])),
             http_req(0, method="DELETE", target="/x?" , resp=mk_resp(500, [], {"len": 1000, "seed": 1}))]})
     truth_views(cs[-1]["nodes"])
+    # the access log's header allow/block lists redact the log, never the traffic (seeded change C08-2)
+    for tag, al in (("block", {"disable": False, "req_block": ["authorization", "cookie", "x-piko-endpoint"], "req_allow": [], "resp_block": ["set-cookie", "x-r"], "resp_allow": []}),
+                    ("allow", {"disable": False, "req_block": [], "req_allow": ["user-agent"], "resp_block": [], "resp_allow": ["content-type"]}),
+                    ("allow-disabled", {"disable": True, "req_block": [], "req_allow": ["user-agent"], "resp_block": [], "resp_allow": ["content-type"]})):
+        cs.append({"id": "corpus-access-log-" + tag, "timeout_ms": NORMAL_TIMEOUT_MS, "kind": "consistent", "access_log": al, "nodes": [
+            {"id": "n0", "upstreams": [], "view": []},
+            {"id": "n1", "upstreams": [up("u1", "e")], "view": []}],
+            "requests": [
+                http_req(0, host="10.0.0.1", headers=[("x-piko-endpoint", "e"), ("Authorization", "Bearer abc"), ("Cookie", "a=b"), ("X-A", "1"), ("User-Agent", "vh/1.0")],
+                         resp=mk_resp(200, [("Set-Cookie", "a=1"), ("X-R", "1"), ("Content-Type", "text/plain")], {"hex": H("ok")})),
+                http_req(1, host="e.example.com", headers=[("Authorization", "Bearer abc"), ("Cookie", "a=b"), ("X-A", "1")],
+                         resp=mk_resp(200, [("Set-Cookie", "a=1"), ("X-R", "1")], {"hex": H("ok")})),
+                # L1 witness: an empty body, so the response header is flushed only after the middleware chain
+                http_req(0, host="e.example.com", resp=mk_resp(302, [("Location", "/elsewhere"), ("Set-Cookie", "a=1"), ("X-R", "1")], {"hex": ""})),
+                http_req(1, host="e.example.com", method="DELETE", resp=mk_resp(204, [("X-R", "1"), ("Server", "up/1")], {"hex": ""}))]})
+        truth_views(cs[-1]["nodes"])
     return cs
 
 
@@ -221,6 +240,13 @@ def gen_nodes(rng, kind):
         nodes.append({"id": "n%d" % i, "upstreams": ups, "view": []})
     if kind in ("consistent", "failure"):
         truth_views(nodes)
+        if kind == "consistent" and rng.random() < 0.6:
+            # settled views still remember departed nodes (left / unreachable, until they expire): they advertise
+            # endpoints but must be ignored, and must not hide the live nodes behind them
+            for i, n in enumerate(nodes):
+                for g in range(rng.randint(1, 3)):
+                    n["view"].append(view("gone%d" % g, rng.choice(["dead", "refuse"]), [(e, 1) for e in EPS if rng.random() < 0.7],
+                                          rng.choice(["left", "unreachable"])))
         if kind == "failure":
             for i, n in enumerate(nodes):
                 if rng.random() < 0.6:
@@ -355,9 +381,12 @@ def gen_timeout_cluster(rng, cid):
             hs = [rng.choice(REQ_HDRS[:4])] if rng.random() < 0.5 else []
             reqs.append(http_req(e, rng.choice(["GET", "POST"]), "/slow", "s.example.com", hs))
         elif r < 0.9:
+            conn = [(rng.choice(["Connection", "connection"]), rng.choice(["Upgrade", "upgrade", "keep-alive, Upgrade"]))]
+            if rng.random() < 0.35:
+                # the Connection field split over several lines (RFC 9110 5.3), the upgrade token not in the last one
+                conn = [("Connection", rng.choice(["Upgrade", "upgrade"])), (rng.choice(["Connection", "connection"]), rng.choice(["keep-alive", "x-a", "Keep-Alive, x-b"]))]
             reqs.append(http_req(e, "GET", "/ws", "w.example.com",
-                                 [(rng.choice(["Connection", "connection"]), rng.choice(["Upgrade", "upgrade", "keep-alive, Upgrade"])),
-                                  ("Upgrade", rng.choice(["websocket", "WebSocket", "WEBSOCKET", "webSocket"]))]))
+                                 conn + [("Upgrade", rng.choice(["websocket", "WebSocket", "WEBSOCKET", "webSocket"]))]))
         else:
             reqs.append(http_req(e, "GET", "/", "nobody.example.com"))
     return {"id": cid, "timeout_ms": TIMEOUT_MS, "kind": "timeout", "nodes": nodes, "requests": reqs}
@@ -374,7 +403,25 @@ def gen_cluster(rng, cid, profile):
             reqs.append(gen_tcp(rng, nodes, eps))
         else:
             reqs.append(gen_http(rng, nodes, eps, rng.random() < profile.get("p_rich", 0.3)))
-    return {"id": cid, "timeout_ms": NORMAL_TIMEOUT_MS, "kind": kind, "nodes": nodes, "requests": reqs}
+    return {"id": cid, "timeout_ms": NORMAL_TIMEOUT_MS, "kind": kind, "nodes": nodes, "requests": reqs, "access_log": gen_access_log(rng)}
+
+
+def gen_access_log(rng):
+    """the access-log configuration (header allow/block lists are meant to redact the LOG): proxying must be the same
+    under every one of them. None = the harness default (disabled)."""
+    r = rng.random()
+    if r < 0.4:
+        return None
+    al = {"disable": rng.random() < 0.3, "req_block": [], "req_allow": [], "resp_block": [], "resp_allow": []}
+    if rng.random() < 0.5:
+        al["req_block"] = rng.choice([["authorization", "cookie"], ["x-piko-endpoint", "X-A", "host", "User-Agent"], ["x-piko-forward", "connection", "x-e2e"]])
+    else:
+        al["req_allow"] = rng.choice([["user-agent"], ["x-a"], ["x-piko-forward"]])
+    if rng.random() < 0.5:
+        al["resp_block"] = rng.choice([["set-cookie"], ["x-r", "server", "location"]])
+    else:
+        al["resp_allow"] = rng.choice([["content-type"], ["x-r"]])
+    return al
 
 
 PROFILES = {
@@ -625,6 +672,14 @@ def monitor_c08(cl, ri, rq, ob):
         if w != g:
             diff = {k: (w.get(k), g.get(k)) for k in set(w) | set(g) if w.get(k) != g.get(k)}
             return fail("transparent-req", "end-to-end request headers changed (sent, seen): %s" % json.dumps(diff, sort_keys=True)[:400])
+        if is_ws(rq) and "upgrade" in ctl:
+            # an announced websocket upgrade reaches the upstream as an upgrade (Upgrade is hop-by-hop, the proxy re-adds it)
+            up_sent = hdr_first(rq["headers"], "upgrade")
+            up_seen = [U(b) for a, b in rec["headers"] if a.lower() == "upgrade"]
+            up_conn = [t for a, b in rec["headers"] if a.lower() == "connection" for t in U(b).lower().replace(" ", "").split(",")]
+            if up_seen != [up_sent] or "upgrade" not in up_conn:
+                return fail("ws-upgrade-lost", "websocket upgrade (Upgrade: %s, Connection: %s) reached the upstream with Upgrade %r, Connection tokens %r"
+                            % (up_sent, [U(b) for a, b in rq["headers"] if U(a).lower() == "connection"], up_seen, up_conn))
         spec = rq["resp"]
         if st != spec["status"]:
             return fail("transparent-resp", "upstream answered %d, client saw %d" % (spec["status"], st))
